@@ -34,6 +34,9 @@ type Facts struct {
 	nand map[string][2]ast.Expr
 	// vals: integer variables known to hold one of a few constants (the result of a helper that returns constants)
 	vals map[string][]int64
+	// stale: boolean locals that were computed from fields of an object whose mutex was released afterwards: they no
+	// longer stand for the condition they were computed from
+	stale map[string]bool
 }
 
 type pendAtom struct {
@@ -61,6 +64,12 @@ func (f Facts) clone() Facts {
 		n.pend = make(map[string]pendAtom, len(f.pend))
 		for k, v := range f.pend {
 			n.pend[k] = v
+		}
+	}
+	if len(f.stale) > 0 {
+		n.stale = make(map[string]bool, len(f.stale))
+		for k := range f.stale {
+			n.stale[k] = true
 		}
 	}
 	if len(f.vals) > 0 {
@@ -389,6 +398,7 @@ func (f *Facts) kill(lv string) {
 			delete(f.vals, k)
 		}
 	}
+	delete(f.stale, lv)
 }
 
 // refineVals: x == c decided for a variable with a known finite value set.
@@ -599,8 +609,13 @@ func (g *Graph) factsLattice() Lattice[Facts] {
 					return false
 				}
 			}
-			if len(a.pend) != len(b.pend) || len(a.nand) != len(b.nand) || len(a.vals) != len(b.vals) {
+			if len(a.pend) != len(b.pend) || len(a.nand) != len(b.nand) || len(a.vals) != len(b.vals) || len(a.stale) != len(b.stale) {
 				return false
+			}
+			for k := range a.stale {
+				if !b.stale[k] {
+					return false
+				}
 			}
 			for k, av := range a.vals {
 				bv, ok := b.vals[k]
@@ -646,7 +661,7 @@ func (g *Graph) factsLattice() Lattice[Facts] {
 				// boolean locals that name a condition (ok := a && b; if !ok || other {...}): the named conditions are
 				// decided too (the condition is assumed once more with such locals replaced by their definitions)
 				if g.Fi != nil {
-					if ex, changed := expandBoolLocals(g, st.Node.(ast.Expr), 0); changed {
+					if ex, changed := expandBoolLocals(g, st.Node.(ast.Expr), 0, s.stale); changed {
 						n.assume(ex, st.Val)
 					}
 				}
@@ -816,6 +831,12 @@ func (g *Graph) factsLattice() Lattice[Facts] {
 						if mentionsFieldOf(k, r) {
 							delete(n.nand, k)
 						}
+					}
+					for _, nm := range g.boolLocalsOver(r) {
+						if n.stale == nil {
+							n.stale = map[string]bool{}
+						}
+						n.stale[nm] = true
 					}
 				}
 				g.P.applyCalleePost(info, &n, st.Node)
@@ -1091,6 +1112,14 @@ func joinFacts(g *Graph, a, b Facts, widen bool) Facts {
 			n.pend[k] = v
 		}
 	}
+	for _, m := range []map[string]bool{a.stale, b.stale} {
+		for k := range m {
+			if n.stale == nil {
+				n.stale = map[string]bool{}
+			}
+			n.stale[k] = true
+		}
+	}
 	for k, av := range a.vals {
 		if bv, ok := b.vals[k]; ok {
 			set := map[int64]bool{}
@@ -1306,18 +1335,18 @@ func (f *Facts) applyPending(cond ast.Expr, val bool) {
 
 // expandBoolLocals replaces, inside a condition, every boolean local that is assigned exactly once from an
 // expression that is not a plain call by that expression (recursively, three levels).
-func expandBoolLocals(g *Graph, e ast.Expr, depth int) (ast.Expr, bool) {
+func expandBoolLocals(g *Graph, e ast.Expr, depth int, stale map[string]bool) (ast.Expr, bool) {
 	info := g.Info
 	switch x := e.(type) {
 	case *ast.ParenExpr:
-		in, ch := expandBoolLocals(g, x.X, depth)
+		in, ch := expandBoolLocals(g, x.X, depth, stale)
 		if ch {
 			return &ast.ParenExpr{X: in}, true
 		}
 		return e, false
 	case *ast.UnaryExpr:
 		if x.Op == token.NOT {
-			in, ch := expandBoolLocals(g, x.X, depth)
+			in, ch := expandBoolLocals(g, x.X, depth, stale)
 			if ch {
 				return &ast.UnaryExpr{Op: token.NOT, X: in}, true
 			}
@@ -1325,8 +1354,8 @@ func expandBoolLocals(g *Graph, e ast.Expr, depth int) (ast.Expr, bool) {
 		return e, false
 	case *ast.BinaryExpr:
 		if x.Op == token.LAND || x.Op == token.LOR {
-			l, c1 := expandBoolLocals(g, x.X, depth)
-			r, c2 := expandBoolLocals(g, x.Y, depth)
+			l, c1 := expandBoolLocals(g, x.X, depth, stale)
+			r, c2 := expandBoolLocals(g, x.Y, depth, stale)
 			if c1 || c2 {
 				return &ast.BinaryExpr{X: l, Op: x.Op, Y: r}, true
 			}
@@ -1339,6 +1368,9 @@ func expandBoolLocals(g *Graph, e ast.Expr, depth int) (ast.Expr, bool) {
 		obj, isVar := info.Uses[x].(*types.Var)
 		if !isVar || obj.IsField() || obj.Parent() == nil || obj.Parent() == g.Fi.Pkg.Types.Scope() {
 			return e, false
+		}
+		if stale[x.Name] {
+			return e, false // it names a condition over fields whose lock was released since
 		}
 		if b, isB := obj.Type().Underlying().(*types.Basic); !isB || b.Kind() != types.Bool {
 			return e, false
@@ -1381,7 +1413,7 @@ func expandBoolLocals(g *Graph, e ast.Expr, depth int) (ast.Expr, bool) {
 				return e, false
 			}
 		}
-		in, _ := expandBoolLocals(g, d, depth+1)
+		in, _ := expandBoolLocals(g, d, depth+1, stale)
 		return &ast.ParenExpr{X: in}, true
 	}
 	return e, false
@@ -1598,4 +1630,45 @@ func splitCond(base Lattice[Facts], f Facts, st Step, e ast.Expr, val bool, dept
 		}
 	}
 	return []Facts{base.Step(f, Step{Kind: StCond, Node: e, Val: val})}
+}
+
+// boolLocalsOver: the boolean locals of the graph's function that are assigned exactly once, from an expression that
+// reads a field of the object rootDot ("pool.") names.
+func (g *Graph) boolLocalsOver(rootDot string) []string {
+	if g.Fi == nil {
+		return nil
+	}
+	if g.boolOver == nil {
+		g.boolOver = map[string][]string{}
+	}
+	if v, ok := g.boolOver[rootDot]; ok {
+		return v
+	}
+	info := g.Info
+	var out []string
+	ast.Inspect(g.Fi.Decl.Body, func(x ast.Node) bool {
+		as, ok := x.(*ast.AssignStmt)
+		if !ok || len(as.Lhs) != len(as.Rhs) {
+			return true
+		}
+		for i, l := range as.Lhs {
+			id, isId := l.(*ast.Ident)
+			if !isId || id.Name == "_" {
+				continue
+			}
+			t := info.TypeOf(id)
+			if t == nil {
+				continue
+			}
+			if b, isB := t.Underlying().(*types.Basic); !isB || b.Kind() != types.Bool {
+				continue
+			}
+			if mentionsFieldOf(exprStr(as.Rhs[i]), rootDot) {
+				out = append(out, id.Name)
+			}
+		}
+		return true
+	})
+	g.boolOver[rootDot] = out
+	return out
 }
